@@ -244,6 +244,34 @@ def fullFamily (D : Nat) (pchol : Tab D (Tab D α) → Tab D (Tab D α) × α) (
     Family (FullG α D) (Fin D → α) α :=
   ⟨fullLogPdf pchol log2pi, fun _ _ => 1, fullMstep tiny⟩
 
+/-- `VonMisesFisher(mean, concentration)`; `logNorm` is the value of `log_norm()` (Bessel function `ive`: external) -/
+structure Vmf (α : Type) (D : Nat) where
+  mean : Tab D α
+  kappa : α
+  logNorm : α
+
+/-- `VonMisesFisher.log_pdf` on an observation that the mixture has already normalised to unit length:
+`κ·Σ_d y_d μ_d − log_norm` -/
+def vmfLogPdf {D : Nat} (θ : Vmf α D) (y : Fin D → α) : α :=
+  θ.kappa * (vsum fun d => y d * rd θ.mean d) - θ.logNorm
+
+/-- `VonMisesFisherTrainer._fit(y, saliency = w)`: mean = normalised resultant, concentration = Banerjee's
+approximation `(r̄·D − r̄³)/(1 − r̄²)` of the clipped mean resultant length, clipped to `[lo, hi]`; `lnorm` = `log_norm` -/
+def vmfMstep {D : Nat} [LT α] [DecidableLT α] (lnorm : α → α) (lo hi tiny : α) (N : Nat) (w _aux : Fin N → α)
+    (y : Fin N → Fin D → α) : Vmf α D :=
+  let r : Tab D α := tab fun d => vsum fun n => w n * y n d
+  let nrm : α := Transc.sqrt (vsum fun d => rd r d * rd r d)
+  let den : α := max nrm tiny
+  let q : α := nrm / vsum w
+  let rbar : α := if q < 1 then q else 1
+  let c : α := (rbar * (D : α) - rbar * rbar * rbar) / (1 - rbar * rbar)
+  let c1 : α := if c < lo then lo else c
+  let κ : α := if hi < c1 then hi else c1
+  ⟨tab fun d => rd r d / den, κ, lnorm κ⟩
+
+def vmfFamily (D : Nat) [LT α] [DecidableLT α] (lnorm : α → α) (lo hi tiny : α) : Family (Vmf α D) (Fin D → α) α :=
+  ⟨vmfLogPdf, fun _ _ => 1, vmfMstep lnorm lo hi tiny⟩
+
 def sphFamily (D : Nat) (tiny log2pi : α) : Family (SphG α D) (Fin D → α) α :=
   ⟨sphLogPdf log2pi, fun _ _ => 1, sphMstep tiny⟩
 
